@@ -21,7 +21,12 @@ typedef verif_bytes sbytes; typedef verif_stack sstack;
 
 static bool h_items_eq(const verif_stack& a, const verif_stack& b) {
     if (a.base != b.base || a.n != b.n) return false;
+#ifdef H_SKIP_TOP_VALUE
+    // "shape" query: everything but the bytes of the result item (its value is decided by the companion *_value query)
+    for (size_t i = 0; i < VERIF_STACK_W; ++i) if (i + 1 < a.n && !(a.w[i] == b.w[i])) return false;
+#else
     for (size_t i = 0; i < VERIF_STACK_W; ++i) if (i < a.n && !(a.w[i] == b.w[i])) return false;
+#endif
     return true;
 }
 
@@ -36,6 +41,9 @@ extern "C" void h_step(void) {
     __CPROVER_assume(st.base <= 1000000000UL);
 #endif
     for (size_t i = 0; i < VERIF_STACK_W; ++i) __CPROVER_assume(st.w[i].n <= VERIF_ITEM_CAP);
+#ifdef H_ITEM_MAXLEN
+    for (size_t i = 0; i < VERIF_STACK_W; ++i) __CPROVER_assume(st.w[i].n <= H_ITEM_MAXLEN);   // bounded operand width (stated in evidence)
+#endif
     __CPROVER_havoc_object(&scr);
     __CPROVER_assume(scr.n <= VERIF_SCRIPT_CAP);
     unsigned int flags = nondet_uint();
@@ -94,6 +102,10 @@ extern "C" void h_step(void) {
     g_locktime_ok = nondet_bool(); g_sequence_ok = nondet_bool(); g_locktime_calls = 0; g_sequence_calls = 0;
     g_hash_calls = 0; g_hash_algo = 0;
     for (int i = 0; i < 32; ++i) g_hash_out[i] = nondet_uchar();
+#ifdef H_CAT_LIMIT
+    // storage bound of the model: the concatenation must fit into one modelled element
+    __CPROVER_assume(H_N < 2 || st.w[H_N >= 2 ? H_N - 1 : 0].n + st.w[H_N >= 2 ? H_N - 2 : 0].n <= VERIF_ITEM_CAP);
+#endif
     // ---------------- what the rules prescribe ----------------
     SpecCtx c; SpecState s;
     c.flags = flags; c.allow_disabled = env.allow_disabled_opcodes; c.getop_ok = g_getop_ok; c.opcode = opbyte; c.push = g_getop_push;
@@ -124,7 +136,7 @@ extern "C" void h_step(void) {
     __CPROVER_assert(o.kind != SO_EXC, "step: returns normally only where the rules prescribe no exception failure");
     if (o.kind == SO_ERR) {
         __CPROVER_assert(!ok, "step: fails where the rules prescribe a failure");
-        __CPROVER_assert(ok || err == (ScriptError)o.err, "step: reports exactly the error the rules prescribe");
+        __CPROVER_assert(ok || o.err == SPEC_ANY_ERROR || err == (ScriptError)o.err, "step: reports exactly the error the rules prescribe");
         return;
     }
     __CPROVER_assert(ok, "step: succeeds where the rules prescribe success");
